@@ -98,6 +98,12 @@ class C04:
 
                 def num(k):
                     v = fi.field_kwargs.get(k)
+                    if isinstance(v, (ast.Name, ast.Attribute)):
+                        # a named bound (`SCORE_MAX = 1`): its value
+                        from rules.common import _const_of
+                        cv = _const_of(v, ctx.index, fi.owner.module)
+                        if isinstance(cv, (int, float)) and not isinstance(cv, bool):
+                            return cv
                     if isinstance(v, ast.Constant) and isinstance(v.value, (int, float)):
                         return v.value
                     if isinstance(v, ast.UnaryOp) and isinstance(v.op, ast.USub) and isinstance(v.operand, ast.Constant):
